@@ -196,6 +196,13 @@ def extra_units():
             cs['__yield_checks__'] = yc
         cases.append(cs)
     bb.cases = cases
+    # the same clause for the replay on the real generator (concrete blacklist): the gap a bin lies in is bounded by the
+    # nearest blacklisted end at or before it and the nearest blacklisted start at or after it (or the region)
+    bb.replay_ensures = dict(c17.blacklisted_binning.replay_ensures)
+    bb.replay_ensures['fetch_margin_is_the_fragment_size_or_the_gap_boundary'] = (
+        'fragment_size is None or all('
+        'y[2] == max([y[0] - fragment_size, start_coord] + [b[1] for b in (blacklist or []) if b[1] <= y[0]]) and '
+        'y[3] == min([y[1] + fragment_size, end_coord] + [b[0] for b in (blacklist or []) if b[0] >= y[1]]) for y in Y)')
     out.append(bb)
     for u in (c17.fill_range, c17.trim, c17.binning_contigs):
         v = copy.copy(u)
